@@ -772,3 +772,211 @@ Proof.
     apply wf_concat. rewrite Forall_forall in *. rewrite forallb_forall in Hw.
     intros v Hin. exact (H v Hin et (Hw v Hin)).
 Qed.
+
+(* ---------- adequacy: everything the grammar accepts is the encoding of a well-typed tree ---------- *)
+Lemma take_split' {A} m k (l : list A) : m <= k -> take m l ++ take (k - m) (drop m l) = take k l.
+Proof.
+  intros H. unfold take, drop. replace (N.to_nat k) with (N.to_nat m + N.to_nat (k - m))%nat by lia.
+  symmetry. apply firstn_plus.
+Qed.
+
+Lemma wf_take0 n r : wf r -> wf (take n r).
+Proof.
+  unfold wf, take. intros H. rewrite Forall_forall in *. intros x Hx. apply H.
+  rewrite <- (firstn_skipn (N.to_nat n) r). apply in_or_app. left. exact Hx.
+Qed.
+Lemma wf_drop0 n r : wf r -> wf (drop n r).
+Proof.
+  unfold wf, drop. intros H. rewrite Forall_forall in *. intros x Hx. apply H.
+  rewrite <- (firstn_skipn (N.to_nat n) r). apply in_or_app. right. exact Hx.
+Qed.
+
+(* the k bytes at the front of r are the big-endian image of their value *)
+Lemma be_take_unbe k r : N.of_nat k <= len r -> wf r ->
+  be k (unbe (take (N.of_nat k) r)) = take (N.of_nat k) r /\ unbe (take (N.of_nat k) r) < 256 ^ N.of_nat k.
+Proof.
+  intros Hl W.
+  assert (Hlen : length (take (N.of_nat k) r) = k).
+  { pose proof (take_len (N.of_nat k) r Hl) as E. unfold len in E. lia. }
+  split.
+  - rewrite <- Hlen at 1. apply be_unbe. apply wf_take0, W.
+  - pose proof (unbe_lt _ (wf_take0 (N.of_nat k) r W)) as L.
+    rewrite take_len in L by exact Hl. exact L.
+Qed.
+
+Definition sound_at (e : bytes -> pres) (t : N) : Prop :=
+  forall r n h, e r = Ok (n, h) -> wf r -> exists v, wt t v = true /\ enc v = take n r /\ ch v = h.
+
+Lemma gelems_sound {A} (ea : A -> bytes) (ha : A -> nat) (okA : A -> Prop) elem :
+  (forall r n h, elem r = Ok (n, h) -> wf r -> exists a, okA a /\ ea a = take n r /\ ha a = h) ->
+  bounded elem ->
+  forall f cnt r n h, gelems f elem cnt r = Ok (n, h) -> wf r ->
+  exists xs, len xs = cnt /\ Forall okA xs /\ concat (map ea xs) = take n r /\ lmax (map ha xs) = h.
+Proof.
+  intros He Be. induction f as [|f IH]; intros cnt r n h H W; cbn [gelems] in H.
+  - destruct (N.eqb_spec cnt 0) as [->|]; [|discriminate]. inv_ok H.
+    exists []. repeat split; constructor.
+  - destruct (N.eqb_spec cnt 0) as [->|Hc].
+    { inv_ok H. exists []. repeat split; constructor. }
+    inv_bind H. destruct a as [n1 h1]. inv_bind H. destruct a as [n2 h2]. inv_ok H.
+    destruct (He _ _ _ Ha W) as (a & Hoa & Hea & Hha).
+    destruct (IH _ _ _ _ Ha0 (wf_drop0 n1 r W)) as (xs & Hl & Hok & Hc' & Hm).
+    exists (a :: xs). split; [rewrite len_cons; lia|]. split; [constructor; assumption|].
+    cbn [map concat]. rewrite lmax_cons, Hea, Hc', Hha, Hm. split; [|reflexivity].
+    rewrite <- (take_split' n1 (n1 + n2) r) by lia. f_equal. f_equal. lia.
+Qed.
+
+Lemma gfields_sound elem :
+  (forall ft, ft <> T_STOP -> ft < 256 -> sound_at (elem ft) ft) -> (forall ft, bounded (elem ft)) ->
+  forall f r n h, gfields f elem r = Ok (n, h) -> wf r ->
+  exists fs, forallb (fun fl => match fl with (ft, id, fv) => (ft <? 256) && (id <? two16) && wt ft fv end) fs = true /\
+             concat (map encf fs) ++ [T_STOP] = take n r /\ lmax (map chf fs) = h.
+Proof.
+  intros He Be. induction f as [|f IH]; intros r n h H W; cbn [gfields] in H; [discriminate|].
+  destruct r as [|ft r1]; [discriminate|].
+  inversion W as [|? ? Hft W1]; subst. unfold wfb in Hft.
+  destruct (N.eqb_spec ft T_STOP) as [->|Hns].
+  { inv_ok H. exists []. repeat split. }
+  destruct (hasn r1 2) eqn:H2; [|discriminate]. apply hasn_true in H2.
+  inv_bind H. destruct a as [n1 h1]. inv_bind H. destruct a as [n2 h2]. inv_ok H.
+  pose proof (Be ft _ _ _ Ha) as B1.
+  destruct (He ft Hns Hft _ _ _ Ha (wf_drop0 2 r1 W1)) as (fv & Hwt & Henc & Hch).
+  destruct (IH _ _ _ Ha0 (wf_drop0 n1 _ (wf_drop0 2 r1 W1))) as (fs & Hfs & Hcat & Hm).
+  destruct (be_take_unbe 2 r1 H2 W1) as [Hbe Hlt]. change (N.of_nat 2) with 2 in *. change (256 ^ 2) with two16 in Hlt.
+  exists ((ft, unbe (take 2 r1), fv) :: fs). split; [|split].
+  - cbn [forallb]. rewrite Hfs, Hwt.
+    destruct (N.ltb_spec ft 256); [|lia]. destruct (N.ltb_spec (unbe (take 2 r1)) two16); [|lia]. reflexivity.
+  - assert (Hd2 : len (drop 2 r1) = len r1 - 2) by (apply drop_len; lia).
+    assert (E : take (2 + (n1 + n2)) r1 = take 2 r1 ++ take n1 (drop 2 r1) ++ take n2 (drop n1 (drop 2 r1))).
+    { rewrite <- (take_split' 2 (2 + (n1 + n2)) r1) by lia. f_equal.
+      replace (2 + (n1 + n2) - 2) with (n1 + n2) by lia.
+      rewrite <- (take_split' n1 (n1 + n2) (drop 2 r1)) by lia. f_equal. f_equal. lia. }
+    replace (3 + n1 + n2) with (1 + (2 + (n1 + n2))) by lia.
+    transitivity (ft :: take (2 + (n1 + n2)) r1).
+    + cbn [map concat encf app]. rewrite <- !app_assoc. rewrite Hcat, Henc, Hbe, E. reflexivity.
+    + unfold take. replace (N.to_nat (1 + (2 + (n1 + n2)))) with (S (N.to_nat (2 + (n1 + n2)))) by lia.
+      reflexivity.
+  - cbn [map chf]. rewrite lmax_cons, Hch, Hm. reflexivity.
+Qed.
+
+Lemma kind_of_cases t :
+  match kind_of t with
+  | KFixed w => (t = T_BOOL /\ w = 1) \/ (t = T_BYTE /\ w = 1) \/ (t = T_DOUBLE /\ w = 8) \/
+                (t = T_I16 /\ w = 2) \/ (t = T_I32 /\ w = 4) \/ (t = T_I64 /\ w = 8)
+  | KString => t = T_STRING
+  | KStruct => t = T_STRUCT
+  | KMap => t = T_MAP
+  | KList => t = T_SET \/ t = T_LIST
+  | KBad => True
+  end.
+Proof.
+  unfold kind_of.
+  repeat match goal with |- context [N.eqb t ?c] => destruct (N.eqb_spec t c) as [->|?] end;
+    cbv beta iota; auto 10.
+Qed.
+
+Lemma gp_sound : forall f t, sound_at (gp f t) t.
+Proof.
+  induction f as [|f IH]; intros t r n h H W; cbn [gp] in H; [discriminate|].
+  pose proof (kind_of_cases t) as K.
+  destruct (kind_of t) as [w| | | | |].
+  - destruct (hasn r w) eqn:Hw; [|discriminate]. apply hasn_true in Hw. inv_ok H.
+    destruct K as [[-> ->]|[[-> ->]|[[-> ->]|[[-> ->]|[[-> ->]|[-> ->]]]]]].
+    + destruct r as [|b r']; [rewrite len_nil in Hw; lia|]. inversion W as [|? ? Hb _]; subst. unfold wfb in Hb.
+      exists (VBool b). cbn [wt enc ch]. destruct (N.ltb_spec b 256); [|lia]. repeat split.
+    + destruct r as [|b r']; [rewrite len_nil in Hw; lia|]. inversion W as [|? ? Hb _]; subst. unfold wfb in Hb.
+      exists (VByte b). cbn [wt enc ch]. destruct (N.ltb_spec b 256); [|lia]. repeat split.
+    + destruct (be_take_unbe 8 r Hw W) as [Hbe Hlt]. exists (VDouble (unbe (take 8 r))).
+      cbn [wt enc ch]. change (N.of_nat 8) with 8 in *. change (256 ^ 8) with two64 in Hlt.
+      destruct (N.ltb_spec (unbe (take 8 r)) two64); [|lia]. repeat split. exact Hbe.
+    + destruct (be_take_unbe 2 r Hw W) as [Hbe Hlt]. exists (VI16 (unbe (take 2 r))).
+      cbn [wt enc ch]. change (N.of_nat 2) with 2 in *. change (256 ^ 2) with two16 in Hlt.
+      destruct (N.ltb_spec (unbe (take 2 r)) two16); [|lia]. repeat split. exact Hbe.
+    + destruct (be_take_unbe 4 r Hw W) as [Hbe Hlt]. exists (VI32 (unbe (take 4 r))).
+      cbn [wt enc ch]. change (N.of_nat 4) with 4 in *. change (256 ^ 4) with two32 in Hlt.
+      destruct (N.ltb_spec (unbe (take 4 r)) two32); [|lia]. repeat split. exact Hbe.
+    + destruct (be_take_unbe 8 r Hw W) as [Hbe Hlt]. exists (VI64 (unbe (take 8 r))).
+      cbn [wt enc ch]. change (N.of_nat 8) with 8 in *. change (256 ^ 8) with two64 in Hlt.
+      destruct (N.ltb_spec (unbe (take 8 r)) two64); [|lia]. repeat split. exact Hbe.
+  - subst t. unfold gstring in H.
+    destruct (hasn r 4) eqn:H4; [|discriminate]. apply hasn_true in H4.
+    destruct (N.leb_spec two31 (unbe (take 4 r))) as [|Hpos]; [discriminate|].
+    destruct (hasn (drop 4 r) (unbe (take 4 r))) eqn:Hu; [|discriminate]. apply hasn_true in Hu.
+    inv_ok H. destruct (be_take_unbe 4 r H4 W) as [Hbe _]. change (N.of_nat 4) with 4 in *.
+    set (u := unbe (take 4 r)) in *.
+    assert (Hls : len (take u (drop 4 r)) = u) by (apply take_len; exact Hu).
+    exists (VStr (take u (drop 4 r))). cbn [wt enc ch]. rewrite Hls, Hbe.
+    destruct (N.ltb_spec u two31); [|lia].
+    rewrite (proj2 (wfbb_wf _)) by (apply wf_take0, wf_drop0, W).
+    repeat split. rewrite <- (take_split' 4 (4 + u) r) by lia. f_equal. f_equal. lia.
+  - subst t. inv_bind H. destruct a as [n1 h1]. inv_ok H.
+    destruct (gfields_sound (gp f) (fun ft _ _ => IH ft) (gp_bounds f) _ _ _ _ Ha W) as (fs & Hfs & Hcat & Hm).
+    exists (VStruct fs). cbn [wt]. rewrite Hfs. repeat split; [exact Hcat|].
+    change (ch (VStruct fs)) with (S (lmax (map chf fs))). now rewrite Hm.
+  - subst t. destruct r as [|kt [|vt r2]]; try discriminate.
+    inversion W as [|? ? Hkt W1]; subst. inversion W1 as [|? ? Hvt W2]; subst. unfold wfb in *.
+    destruct (hasn r2 4) eqn:H4; [|discriminate]. apply hasn_true in H4.
+    destruct (N.leb_spec two31 (unbe (take 4 r2))) as [|Hpos]; [discriminate|].
+    inv_bind H. destruct a as [n1 h1]. inv_ok H.
+    destruct (be_take_unbe 4 r2 H4 W2) as [Hbe _]. change (N.of_nat 4) with 4 in *.
+    destruct (gelems_sound encp chp (fun kv => wt kt (fst kv) && wt vt (snd kv) = true)
+                (gpair (gp f kt) (gp f vt))) with (f := S f) (cnt := unbe (take 4 r2)) (r := drop 4 r2) (n := n1) (h := h1)
+      as (kvs & Hl & Hok & Hcat & Hm); [| |exact Ha|apply wf_drop0, W2|].
+    + intros r n h Hp Wr. unfold gpair in Hp.
+      inv_bind Hp. destruct a as [a1 b1]. inv_bind Hp. destruct a as [a2 b2]. inv_ok Hp.
+      pose proof (gp_bounds f kt _ _ _ Ha0) as B1.
+      destruct (IH kt _ _ _ Ha0 Wr) as (k & Hwk & Hek & Hck).
+      destruct (IH vt _ _ _ Ha1 (wf_drop0 a1 r Wr)) as (v & Hwv & Hev & Hcv).
+      exists (k, v). cbn [fst snd encp chp]. rewrite Hwk, Hwv, Hek, Hev, Hck, Hcv. repeat split.
+      rewrite <- (take_split' a1 (a1 + a2) r) by lia. f_equal. f_equal. lia.
+    + apply gpair_bounded; apply gp_bounds.
+    + exists (VMap kt vt kvs). cbn [wt].
+      destruct (N.ltb_spec kt 256); [|lia]. destruct (N.ltb_spec vt 256); [|lia].
+      rewrite Hl. destruct (N.ltb_spec (unbe (take 4 r2)) two31); [|lia].
+      assert (Hfb : forallb (fun kv => match kv with (k, v) => wt kt k && wt vt v end) kvs = true).
+      { apply forallb_forall. rewrite Forall_forall in Hok. intros [k v] Hin. exact (Hok _ Hin). }
+      rewrite Hfb. repeat split.
+      * change (enc (VMap kt vt kvs)) with (kt :: vt :: be 4 (len kvs) ++ concat (map encp kvs)).
+        rewrite Hl, Hbe, Hcat.
+        pose proof (gelems_bounds (S f) _ (gpair_bounded _ _ (gp_bounds f kt) (gp_bounds f vt)) _ _ _ _ Ha) as Bn.
+        rewrite drop_len in Bn by lia.
+        replace (6 + n1) with (1 + (1 + (4 + n1))) by lia.
+        assert (E : take (4 + n1) r2 = take 4 r2 ++ take n1 (drop 4 r2)).
+        { rewrite <- (take_split' 4 (4 + n1) r2) by lia. f_equal. f_equal. lia. }
+        rewrite <- E. unfold take at 2. replace (N.to_nat (1 + (1 + (4 + n1)))) with (S (S (N.to_nat (4 + n1)))) by lia.
+        reflexivity.
+      * change (ch (VMap kt vt kvs)) with (S (lmax (map chp kvs))). now rewrite Hm.
+  - destruct r as [|et r1]; try discriminate.
+    inversion W as [|? ? Het W1]; subst. unfold wfb in *.
+    destruct (hasn r1 4) eqn:H4; [|discriminate]. apply hasn_true in H4.
+    destruct (N.leb_spec two31 (unbe (take 4 r1))) as [|Hpos]; [discriminate|].
+    inv_bind H. destruct a as [n1 h1]. inv_ok H.
+    destruct (be_take_unbe 4 r1 H4 W1) as [Hbe _]. change (N.of_nat 4) with 4 in *.
+    destruct (gelems_sound enc ch (fun v => wt et v = true) (gp f et)) with (f := S f) (cnt := unbe (take 4 r1)) (r := drop 4 r1) (n := n1) (h := h1)
+      as (vs & Hl & Hok & Hcat & Hm); [| |exact Ha|apply wf_drop0, W1|].
+    + intros r n h Hp Wr. destruct (IH et _ _ _ Hp Wr) as (v & Hwv & Hev & Hcv). exists v. auto.
+    + apply gp_bounds.
+    + assert (Hfb : forallb (wt et) vs = true).
+      { apply forallb_forall. rewrite Forall_forall in Hok. exact Hok. }
+      pose proof (gelems_bounds (S f) _ (gp_bounds f et) _ _ _ _ Ha) as Bn.
+      rewrite drop_len in Bn by lia.
+      assert (Henc : et :: be 4 (len vs) ++ concat (map enc vs) = take (5 + n1) (et :: r1)).
+      { rewrite Hl, Hbe, Hcat. replace (5 + n1) with (1 + (4 + n1)) by lia.
+        assert (E : take (4 + n1) r1 = take 4 r1 ++ take n1 (drop 4 r1)).
+        { rewrite <- (take_split' 4 (4 + n1) r1) by lia. f_equal. f_equal. lia. }
+        rewrite <- E. unfold take at 2. replace (N.to_nat (1 + (4 + n1))) with (S (N.to_nat (4 + n1))) by lia.
+        reflexivity. }
+      destruct K as [->| ->].
+      * exists (VSet et vs). cbn [wt enc ch]. destruct (N.ltb_spec et 256); [|lia].
+        rewrite Hl. destruct (N.ltb_spec (unbe (take 4 r1)) two31); [|lia]. rewrite Hfb, <- Hl.
+        repeat split; [exact Henc|now rewrite Hm].
+      * exists (VList et vs). cbn [wt enc ch]. destruct (N.ltb_spec et 256); [|lia].
+        rewrite Hl. destruct (N.ltb_spec (unbe (take 4 r1)) two31); [|lia]. rewrite Hfb, <- Hl.
+        repeat split; [exact Henc|now rewrite Hm].
+  - discriminate.
+Qed.
+
+(* the grammar accepts exactly the encodings of well-typed trees (over byte strings) *)
+Theorem gparse_sound t r n h :
+  gparse t r = Ok (n, h) -> wf r -> exists v, wt t v = true /\ enc v = take n r /\ ch v = h.
+Proof. apply gp_sound. Qed.
